@@ -13,6 +13,8 @@ From Verif Require Import Chain.Complete.
 From Verif Require Import Chain.Cycles.
 From Verif Require Import Chain.Order.
 From Verif Require Import Chain.Final.
+From Verif Require Import Chain.Frame.
+From Verif Require Import Chain.Validity.
 Local Open Scope string_scope.
 Local Open Scope list_scope.
 
@@ -167,3 +169,17 @@ Proof.
       split; [reflexivity|]. split; [left; reflexivity|]. split; vm_compute; reflexivity.
 Qed.
 
+
+(* the hypothesis of write_preserves_validity holds of [ex_entries], and a write to it is accepted *)
+Lemma example_validity :
+  failover_wf ex_entries /\
+  write ex_entries (WPut (EDefaults "b" "http" false)) =
+    (proposed ex_entries (WPut (EDefaults "b" "http" false)), true).
+Proof.
+  split; [|vm_compute; reflexivity].
+  intros n r key f Hg Hin. unfold get_resolver in Hg.
+  cbn [ex_entries lookup_entry ekey key_eqb ekind_eqb fst snd andb] in Hg.
+  destruct ("b" =? n).
+  - injection Hg as <-. cbn [rs_failover] in Hin. destruct Hin as [H|[]]. injection H as _ <-. left. reflexivity.
+  - destruct ("c" =? n); [|discriminate]. injection Hg as <-. destruct Hin.
+Qed.
